@@ -37,12 +37,12 @@ JudgeMatch(e) ==
                Fails(e, "CompletionsExact", \A s \in sols : Exact(s, data, orac))
             \o Fails(e, "PositiveRatios", \A s \in sols : PositiveRatios(s))
             \o Fails(e, "DRIFT_WellRanked",
-                     Len(e.solutions) > 0 => WellRanked(AsSetJ(e.solutions[1]), sols, ion))
+                     (e.mode = "all/ion_priority" /\ Len(e.solutions) > 0) => WellRanked(AsSetJ(e.solutions[1]), sols, ion))
             \o Fails(e, "NoDuplicateCompletions", Len(e.solutions) = Cardinality(sols))
             \* with the ion_priority ranking match() returns the shortest completions only; the
             \* model's solution set is recomputed for imbalances of at most 7 atoms (the search is
             \* exponential in the number of atoms)
-            \o (IF e.natoms > 7 THEN <<>> ELSE
+            \o (IF e.natoms > 7 \/ e.mode # "all/ion_priority" THEN <<>> ELSE
                 LET all == Solutions(recs, e.data)
                     shortest == {s \in all : \A t \in all : Cardinality(s) <= Cardinality(t)}
                 IN   Fails(e, "DRIFT_ShortestOfAll",
@@ -77,6 +77,7 @@ Judge(e) == CASE e.ev = "db" -> JudgeDb(e)
               [] e.ev = "match" -> JudgeMatch(e)
               [] e.ev = "impute" -> JudgeImpute(e)
               [] e.ev = "constrain" -> JudgeConstrain(e)
+              [] e.ev = "parallel" -> Fails(e, "ParallelImputeAgreesWithSingle", e.same)
               [] OTHER -> << <<e.id, "UnknownEvent">> >>
 
 TInit == i = 1 /\ dbs = <<>> /\ bad = <<>> /\ TLCSet(1, <<>>)
